@@ -502,6 +502,11 @@ pub fn structural_diff_opts(pristine: &Dump, damaged: &Dump, missing_ok: bool) -
         if is_check(path) {
             continue;
         }
+        if pl.is_err() {
+            // the undamaged container already answers this question with an error: there is no
+            // written value to compare a later answer with (see DESIGN 10.3, get_pack_check_info)
+            continue;
+        }
         match dmap.get(path.as_str()) {
             None => {
                 if !covered_by_err(path, &dmap) {
